@@ -604,3 +604,73 @@ def scenario_cases():
     cfg = [0, 0, 0, 3, 3, 100000, 100, 100, 100, 4, 4, 1000, 5000, 5000, 5000] + z6
     out.append(Case("sc-retx", [(0, [0]), (1, [0]), (2, [0, 3000]), (6, [600]), (6, [600]), (15, [0]), (6, [600]), (15, [1]), (6, [1200]), (13, [2000]), (6, [1200]), (15, [0]), (6, [1200]), (6, [1200])], cfg))
     return out
+
+
+def directed_cases(rng, n):
+    """randomised families aimed at interleavings the uniform generator reaches too rarely:
+    (a) reordered arrival - the FIN-only frame (or the last fragment) of a peer stream first, the data afterwards,
+        with our connection window (MAX_DATA) the binding limit, just below / at / above the final size;
+    (b) write / small packet / loss / full packet rounds on locally opened streams with the peer's MAX_DATA the
+        binding limit (retransmissions next to never-sent data, loss of a frame that ends where fresh data begins)"""
+    out = []
+    z6 = [0] * 6
+    for i in range(n):
+        role = rng.randint(0, 1)
+        peer = 1 - role
+        if i % 2 == 0:
+            d = rng.randint(0, 1)
+            F = rng.choice([1, 2, 10, 60, 150, 400, 1500])
+            md = max(0, F + rng.choice([-1, -1, 0, 1, -F // 2, 40]))
+            win = F + rng.choice([0, 1, 100, 5000])
+            Lp = [3, 3, md, win, win, win]
+            cfg = [role, 0, rng.randint(0, 1)] + Lp + [3, 3, 100000, 1000, 1000, 1000] + z6
+            sid = sid_of(peer, d, rng.randint(0, 1))
+            ops = [(0, [0])]
+            if rng.random() < 0.3:
+                other = sid_of(peer, 1 - d, 0)
+                k = rng.choice([0, 1, min(md, 5)])
+                ops.append((7, [other, 0, k, 0]))
+            style = rng.random()
+            if style < 0.5:
+                ops.append((7, [sid, F, 0, 1]))                  # FIN-only frame overtakes the data
+            elif style < 0.8:
+                t = rng.randint(1, F)
+                ops.append((7, [sid, F - t, t, 1]))              # last fragment first
+            else:
+                ops.append((8, [sid, 0, F]))                     # RESET_STREAM announces the final size
+            # the data, in a few fragments, shuffled
+            cuts = sorted(set([0, F] + [rng.randint(0, F) for _ in range(rng.randint(0, 3))]))
+            frs = [(cuts[j], cuts[j + 1] - cuts[j]) for j in range(len(cuts) - 1)]
+            rng.shuffle(frs)
+            for (off, ln) in frs:
+                ops.append((7, [sid, off, ln, 0]))
+                if rng.random() < 0.2:
+                    ops.append((4, [sid, rng.choice([1, 10, 1000])]))
+            out.append(Case("dir-finfirst-%d" % i, ops, cfg))
+        else:
+            md = rng.choice([300, 1000, 1000, 2500])
+            big = 100000
+            cfg = [role, 0, 0, 3, 3, 100000, 100, 100, 100, 4, 4, md, big, big, big] + z6
+            ops = [(0, [0]), (1, [0])]
+            sids = [sid_of(role, 0, 0)]
+            if rng.random() < 0.4:
+                ops.append((1, [1]))
+                sids.append(sid_of(role, 1, 0))
+            emitted = 0
+            w = rng.choice([100, 300, 300, 700])
+            for r in range(rng.randint(3, 9)):
+                sid = rng.choice(sids)
+                ops.append((2, [sid, rng.choice([w, w, w // 2, 2 * w])]))
+                small = rng.choice([40, 60, 100, 150, w // 2 + 30])
+                ops.append((6, [small]))
+                emitted += 1
+                if rng.random() < 0.8:
+                    ops.append((15, [rng.choice([emitted - 1, emitted - 1, rng.randint(0, emitted)])]))
+                ops.append((6, [rng.choice([1200, 1200, 600, 2 * w + 60])]))
+                emitted += 1
+                if rng.random() < 0.15:
+                    ops.append((13, [md + rng.choice([100, 500])]))
+                    md += 500
+            ops += [(6, [1200]), (6, [1200])]
+            out.append(Case("dir-retx-%d" % i, ops, cfg))
+    return out
